@@ -324,13 +324,17 @@ example : (match getDistance 8 "100".toList with | .ok (some 100) => true | _ =>
 /-! ## idempotence, partial: `m:ss` results of events between 200 m and 800 m -/
 
 /-- the decision on fields that denote the same time again: `n' / sd'` seconds with `n' · 100 = c · sd'` -/
-theorem timedDecide_again (disc : Str) (d m c n' sd' k' : Nat) (hd : 0 < d) (h4 : d ≠ 400) (hm : 0 < m) (hc : c < 6000)
+theorem timedDecide_again (disc : Str) (d m c n' sd' k' : Nat) (hd : 0 < d) (hm : 0 < m) (hc : c < 6000)
     (hsd : (sd' = 1 ∧ k' = 0) ∨ (sd' = 10 ∧ k' = 1) ∨ (sd' = 100 ∧ k' = 2)) (hn : n' * 100 = c * sd')
     (h11 : d ≤ 400 → d * 100 ≤ 11 * (60 * m * 100 + c)) (h10 : 400 < d → d * 100 ≤ 10 * (60 * m * 100 + c))
     (hslow : 60 * m * 100 + c ≤ 2 * d * 100) :
     timedDecide disc (some d) 0 m n' sd' k' = .time 0 m c := by
   have hm0 : (m == 0) = false := by simp; omega
-  have h400 : (some d == some 400) = false := by simp [h4]
+  have h400 : (some d == some 400 && decide (m > 45)) = false := by
+    by_cases e : d = 400
+    · subst e; have : ¬ (m > 45) := by omega
+      simp [this]
+    · simp [e]
   unfold timedDecide
   simp only [hm0, Bool.false_and, Bool.false_eq_true, if_false, hd, decide_true, Option.getD_some, h400]
   unfold timedGuards speedBad
@@ -362,11 +366,12 @@ theorem timedDecide_again (disc : Str) (d m c n' sd' k' : Nat) (hd : 0 < d) (h4 
       rw [if_neg (by omega), if_neg (by omega), if_neg (fun h => by have := h.2; omega)]
 
 /-- **An `m:ss` result between 200 m and 800 m is accepted unchanged when validated again** (idempotence, partial):
-    for an event with a distance `200 < d < 800`, `d ≠ 400` (none of the colon / stop re-readings applies), a result
+    for an event with a distance `200 < d < 800` (none of the colon / stop re-readings applies: the 400 m `63:40` re-reading
+    needs more than 45 minutes, which the speed window excludes), a result
     with a minutes field has no hours field, seconds below 60, and — printed `"%d:%05.2f"` with trailing zeros and a
     trailing point stripped — is read back as the same minutes and hundredths and passes the checks again. -/
 theorem C12_mss_idempotent_partial (hA : asciiDigitsOK = true) (disc t : Str) (d h m c : Nat)
-    (hg : getDistance 8 disc = .ok (some d)) (h200 : 200 < d) (h800 : d < 800) (h4 : d ≠ 400)
+    (hg : getDistance 8 disc = .ok (some d)) (h200 : 200 < d) (h800 : d < 800)
     (hno : strIn disc ["800", "1500", "3000"] = false) (hm : 0 < m) (hr : timedCore disc t = .time h m c) :
     h = 0 ∧ c < 6000 ∧ timedCore disc (formatTime h m c) = .time h m c := by
   have hd : 0 < d := by omega
@@ -405,24 +410,24 @@ theorem C12_mss_idempotent_partial (hA : asciiDigitsOK = true) (disc t : Str) (d
       rw [timedCore_mss hA disc m hm _ d hg h200 h800 hno
         (by intro ch hch; simp only [List.mem_cons, List.mem_nil_iff, or_false] at hch; rcases hch with rfl | rfl <;> assumption)
         _ (floatOf_ss hA _ _ ha hb)]
-      exact timedDecide_again disc d m c _ 1 0 hd h4 hm hc (Or.inl ⟨rfl, rfl⟩) (by omega) h11 h10 hslow
+      exact timedDecide_again disc d m c _ 1 0 hd hm hc (Or.inl ⟨rfl, rfl⟩) (by omega) h11 h10 hslow
     · rw [if_pos (by simpa using hE), List.append_assoc, List.singleton_append]
       rw [timedCore_mss hA disc m hm _ d hg h200 h800 hno
         (by intro ch hch; simp only [List.mem_cons, List.mem_nil_iff, or_false] at hch; rcases hch with rfl | rfl | rfl | rfl <;> assumption)
         _ (floatOf_ss_c hA _ _ _ ha hb he)]
-      exact timedDecide_again disc d m c _ 10 1 hd h4 hm hc (Or.inr (Or.inl ⟨rfl, rfl⟩)) (by omega) h11 h10 hslow
+      exact timedDecide_again disc d m c _ 10 1 hd hm hc (Or.inr (Or.inl ⟨rfl, rfl⟩)) (by omega) h11 h10 hslow
   · rw [if_pos (by simpa using hF), List.append_assoc, List.singleton_append]
     rw [timedCore_mss hA disc m hm _ d hg h200 h800 hno
       (by intro ch hch; simp only [List.mem_cons, List.mem_nil_iff, or_false] at hch; rcases hch with rfl | rfl | rfl | rfl | rfl <;> assumption)
       _ (floatOf_ss_cc hA _ _ _ _ ha hb he hf)]
-    exact timedDecide_again disc d m c _ 100 2 hd h4 hm hc (Or.inr (Or.inr ⟨rfl, rfl⟩)) (by omega) h11 h10 hslow
+    exact timedDecide_again disc d m c _ 100 2 hd hm hc (Or.inr (Or.inr ⟨rfl, rfl⟩)) (by omega) h11 h10 hslow
 
 /-- the same on the level of the validator's timed branch -/
 theorem C12_mss_returned_unchanged (hA : asciiDigitsOK = true) (disc t : Str) (d h m c : Nat)
-    (hg : getDistance 8 disc = .ok (some d)) (h200 : 200 < d) (h800 : d < 800) (h4 : d ≠ 400)
+    (hg : getDistance 8 disc = .ok (some d)) (h200 : 200 < d) (h800 : d < 800)
     (hno : strIn disc ["800", "1500", "3000"] = false) (hm : 0 < m) (hr : timedCore disc t = .time h m c) :
     checkTimed disc t = .ok (formatTime h m c) ∧ checkTimed disc (formatTime h m c) = .ok (formatTime h m c) := by
-  obtain ⟨_, _, h2⟩ := C12_mss_idempotent_partial hA disc t d h m c hg h200 h800 h4 hno hm hr
+  obtain ⟨_, _, h2⟩ := C12_mss_idempotent_partial hA disc t d h m c hg h200 h800 hno hm hr
   unfold checkTimed
   rw [hr, h2]
   exact ⟨rfl, rfl⟩
